@@ -102,3 +102,26 @@ CHECKS = {
   "note": "Trusted base: the sequential model in vlib/monitors/c20.py; requested times never exactly half-way; dyadic grid steps; histories beyond the bounds are not reached.",
  },
 }
+
+# history / re-use dimensions added in the later building rounds (DESIGN.md 8.5, 8.6); appended to the level text
+EXTRA = {
+ "C01": "Reactions may share one parameter-dictionary object, and every case is evaluated a second time after history operations on the same model (re-initialisation, new values, another model built, a simulation). ASan/UBSan replay in the thorough tier.",
+ "C02": "The same expression is also evaluated after pickling the term and inside a deep-copied / pickled model.",
+ "C03": "Refused create_reaction calls are interleaved with the valid ones in the incremental routes.",
+ "C04": "Interfaces prepared or used before another model's interface is prepared / simulated must still follow their own equations.",
+ "C06": "ASan/UBSan replay in the thorough tier.",
+ "C07": "Every lattice call is made twice on one model / interface object, optionally after an earlier run with other options.",
+ "C08": "Refused edits are part of the history alphabet.",
+ "C09": "ASan/UBSan replay in the thorough tier.",
+ "C10": "Runs continued in a second call from the returned state, time and queue are held to the same accounting and (one row wider) windows. ASan/UBSan replay in the thorough tier.",
+ "C11": "Output grids may start after the initial time.",
+ "C12": "A second export of the same object after in-place value changes is re-imported and compared.",
+ "C15": "Differing condition key sets; a prepared and used InferenceSetup re-configured through its setters and re-prepared.",
+ "C16": "End points of the closed support where the density is finite and positive (gamma shape 1 at 0, beta shape 1 at 0 / 1) are asserted.",
+ "C17": "Original and copy must still agree after the same further edits; sub-lineages and partial lineages (links that leave the container) are round-tripped. ASan/UBSan replay in the thorough tier.",
+ "C18": "In-place parameter updates between passes on one model object; evaluations at a non-zero time; zero-order reactions and time-dependent rates.",
+ "C19": "Decoy division rules / events with opposite splitters; the same GeneralVolumeSplitter object re-configured repeatedly. ASan/UBSan replay in the thorough tier.",
+ "C20": "Stating the time a ticked queue is already at is a no-op.",
+}
+for _k, _v in EXTRA.items():
+    CHECKS[_k]["text"] = CHECKS[_k]["text"].rstrip() + " " + _v
